@@ -112,7 +112,7 @@ func next(kind string) entry {
 		panic("verifrt: no replay vector (set VERIF_REPLAY)")
 	}
 	s := cur()
-	for s.pos < len(vec.Draws) && vec.Draws[s.pos].Kind == "cbcdec" {
+	for s.pos < len(vec.Draws) && (vec.Draws[s.pos].Kind == "cbcdec" || vec.Draws[s.pos].Kind == "mrand") {
 		s.pos++ // model-only entries (values of the uninterpreted cipher), see ModelPlaintext
 	}
 	if s.pos >= len(vec.Draws) {
